@@ -28,5 +28,7 @@ pub fn all(seed: u64) -> Vec<Scenario> {
         v.extend(shared::shared(p, seed));
     }
     v.extend(shared::fees(seed));
+    v.extend(shared::c04(seed));
+    v.extend(shared::c05(seed));
     v
 }
